@@ -102,10 +102,21 @@ theorem visOutcome_consVis (σ : Scope) (cons : List Expr) : visOutcome (consVis
     refine bind_congr' rfl (fun v _ => ?_)
     simp
 
+theorem visOutcome_keyVis (σ : Scope) (xs : List String) : visOutcome (keyVis σ xs) = presence xs σ := by
+  unfold keyVis presence
+  induction xs with
+  | nil => rfl
+  | cons x xs ih =>
+    simp only [List.map_cons, visOutcome_cons, List.forM_cons, ih]
+    rfl
+
+theorem presence_noCV (xs : List String) (σ : Scope) : Avoid CV (presence xs σ) :=
+  avoid_presence (fun h => by cases h)
+
 /-- a needed expression: it must evaluate -/
 def needOutcome (σ : Scope) (e : Expr) : Except Err Unit := σ.eval e >>= fun _ => pure ()
 
-theorem checkVis_need (σ : Scope) (e : Expr) : checkVis ⟨σ, e, false⟩ = needOutcome σ e := by
+theorem checkVis_need (σ : Scope) (e : Expr) : checkVis ⟨σ, e, false, none⟩ = needOutcome σ e := by
   unfold checkVis needOutcome
   simp
 
